@@ -615,9 +615,11 @@ impl<'a> P<'a> {
 
     // ---- values
 
+    /// `depth` = number of containers (arrays, inline tables, tables made by dotted key segments) around this value
+    /// below its statement.  The implementation-limit zone starts where the 80th nested container is opened.
     fn value(&mut self, depth: usize) -> R<Node> {
         let start = self.i;
-        if depth >= LIMIT_ZONE {
+        if depth >= LIMIT_ZONE || (depth + 1 >= LIMIT_ZONE && matches!(self.peek(), Some(b'[') | Some(b'{'))) {
             self.limits.depth = true;
         }
         if depth > MODEL_DEPTH_CAP {
@@ -705,7 +707,7 @@ impl<'a> P<'a> {
             }
             self.i += 1;
             self.ws();
-            let v = self.value(depth + 1)?;
+            let v = self.value(depth + path.len())?;
             self.layout.keyvals.push((scope, path.iter().map(|(k, _)| k.clone()).collect()));
             defs.keyval(0, 0, &path, pidx, v)?;
             self.ws();
@@ -1108,7 +1110,7 @@ fn document(p: &mut P<'_>, defs: &mut Defs) -> R<()> {
                 }
                 p.i += 1;
                 p.ws();
-                let v = p.value(0)?;
+                let v = p.value(path.len() - 1)?;
                 let (cur, sec) = (defs.current, defs.section);
                 p.layout.keyvals.push((sec, path.iter().map(|(k, _)| k.clone()).collect()));
                 defs.keyval(cur, sec, &path, pidx, v)?;
